@@ -215,6 +215,27 @@ template <class H> static void hash_suite(const char *cls, int a)
 {
     char kb[64]; snprintf(kb, sizeof kb, "cpp:%s", cls);
     unsigned char exp[32], got[32]; const char *text = "the quick brown fox";
+    /* call-for-call equivalence with two objects (x and a snapshot): every sequence of up to 4 calls over {update 3 / 0 bytes, finalize(ptr), finalize() -> byte_array, reset,
+     * snapshot = x, x = snapshot, x = H(x)}, the C states driven by update / finalize / reinit / copy in lockstep; every digest and a final one are compared */
+    for (int depth = 1; depth <= 4; depth++) { int total = 1; for (int i = 0; i < depth; i++) total *= 8;
+      for (int code = 0; code < total; code++) {
+        union cst { ascon_hash_state_t h; ascon_hasha_state_t ha; }; cst cx, cs, ct; H x, snap; unsigned char co[32], xo[32]; int c = code, bad = -1; char hist[40] = ""; size_t at = 0;
+        if (a) { ascon_hasha_init(&cx.ha); ascon_hasha_init(&cs.ha); } else { ascon_hash_init(&cx.h); ascon_hash_init(&cs.h); }
+        for (int i = 0; i < depth && bad < 0; i++, c /= 8) { int op = c % 8; size_t hl = strlen(hist); snprintf(hist + hl, sizeof hist - hl, "%d", op);
+            switch (op) {
+            case 0: case 1: { size_t n = op == 0 ? 3 : 0; if (a) ascon_hasha_update(&cx.ha, MSG + at, n); else ascon_hash_update(&cx.h, MSG + at, n); x.update(MSG + at, n); at += n; break; }
+            case 2: if (a) ascon_hasha_finalize(&cx.ha, co); else ascon_hash_finalize(&cx.h, co); x.finalize(xo); if (memcmp(co, xo, 32)) bad = i; break;
+            case 3: { if (a) ascon_hasha_finalize(&cx.ha, co); else ascon_hash_finalize(&cx.h, co); ascon::byte_array d = x.finalize(); if (d.size() != 32 || memcmp(co, d.data(), 32)) bad = i; break; }
+            case 4: if (a) ascon_hasha_reinit(&cx.ha); else ascon_hash_reinit(&cx.h); x.reset(); break;
+            case 5: if (a) { ascon_hasha_free(&cs.ha); ascon_hasha_copy(&cs.ha, &cx.ha); } else { ascon_hash_free(&cs.h); ascon_hash_copy(&cs.h, &cx.h); } snap = x; break;
+            case 6: if (a) { ascon_hasha_free(&cx.ha); ascon_hasha_copy(&cx.ha, &cs.ha); } else { ascon_hash_free(&cx.h); ascon_hash_copy(&cx.h, &cs.h); } x = snap; break;
+            default: if (a) { ascon_hasha_copy(&ct.ha, &cx.ha); ascon_hasha_free(&cx.ha); ascon_hasha_copy(&cx.ha, &ct.ha); ascon_hasha_free(&ct.ha); } else { ascon_hash_copy(&ct.h, &cx.h); ascon_hash_free(&cx.h); ascon_hash_copy(&cx.h, &ct.h); ascon_hash_free(&ct.h); }
+                     { H t(x); x = t; } break;
+            } }
+        if (a) { ascon_hasha_finalize(&cx.ha, co); ascon_hasha_free(&cx.ha); ascon_hasha_free(&cs.ha); } else { ascon_hash_finalize(&cx.h, co); ascon_hash_free(&cx.h); ascon_hash_free(&cs.h); }
+        x.finalize(xo); hx_stat("evaluations", 1);
+        if (bad >= 0 || memcmp(co, xo, 32)) { hx_fail(kb, "call sequence [%s] (0/1 update 3/0, 2 finalize(ptr), 3 finalize(), 4 reset, 5 snapshot = x, 6 x = snapshot, 7 x = H(x)): the object's digest differs from the C state driven by the same calls%s", hist, bad >= 0 ? " (inside the sequence)" : " (final digest)"); depth = 9; break; }
+      } }
     for (size_t l = 0; l <= 40; l += 5) {
         if (a) ascon_hasha(exp, MSG, l); else ascon_hash(exp, MSG, l);
         { H h; h.update(MSG, l); h.finalize(got); if (memcmp(got, exp, 32)) hx_fail(kb, "update(ptr)+finalize(ptr) differs from the C function (len %zu)", l); }
